@@ -27,7 +27,10 @@ RULE = ("values of all eight record kinds built from real types (chunks with 0/1
         "of 0-5 quotes with msgpack-boundary metrics); malformed stream derived from the real encodings: truncation at "
         "every offset (small records) or 40 offsets, single-bit flips, kind byte 8..255 and non-canonical integer forms of "
         "the tag (cc/cd/ce/cf/d0..d3), bin8 / map forms of the header, trailing garbage, empty/1/2-byte values, str and "
-        "array-of-int encodings of a chunk; plus the exhaustive sweep of all 2^24 three-byte headers through "
+        "array-of-int encodings of a chunk; an adversarial structured stream for the chunk decoders (maps / 2-arrays / nested / "
+        "variant-wrapped bodies carrying an `address` next to the `value`, address as hex str / bin / int array / ..., set to the "
+        "true hash, another content's hash or garbage; value as bin / str / int array; extra, missing, duplicated fields), behind "
+        "Chunk and ChunkWithPayment headers; plus the exhaustive sweep of all 2^24 three-byte headers through "
         "RecordHeader::from_record; every Request / Response variant (all NetworkAddress forms, Ok and eleven Err payloads, "
         "0-40 keys / proofs / peers) through the CBOR codec functions and rmp-serde, and truncations / bit flips of the CBOR.  Distinct/non-trivial by (op, kind, outcome class, size class)")
 ASSUMPTIONS = [
@@ -345,6 +348,70 @@ def gen_malformed_messages(ctx):
     return out
 
 
+def mp_bin(b):
+    return mp_len(len(b), 0, 0, 0xc4, 0xc5, 0xc6) + b
+
+
+def mp_arr(items):
+    return mp_len(len(items), 0x90, 16, None, 0xdc, 0xdd) + b"".join(items)
+
+
+def mp_map(pairs):
+    return mp_len(len(pairs), 0x80, 16, None, 0xde, 0xdf) + b"".join(k + v for k, v in pairs)
+
+
+def gen_structured_chunks(ctx):
+    """Adversarial *structured* bodies behind a Chunk / ChunkWithPayment header: every plausible way of
+    spelling a chunk that carries its own address (the one field the decoder must derive, never read).
+    The oracle only asks: whenever the real decoder says Ok(chunk), chunk.address() is the content hash of
+    chunk.value()."""
+    rng, quick = ctx.rng, ctx.tier == "quick"
+    out = []
+    datas = [b"abc", bytes(rng.randrange(256) for _ in range(40))] + ([] if quick else [b""] +
+             [bytes(rng.randrange(256) for _ in range(n)) for n in (1, 31, 32, 300)])
+    for data in datas:
+        true_h = hashlib.sha3_256(data).digest()
+        other_h = hashlib.sha3_256(data + b"!").digest()
+        junk = bytes(rng.randrange(256) for _ in range(32))
+        values = {"bin": mp_bin(data), "str": mp_str(data), "ints": mp_arr([mp_uint(x) for x in data])}
+        bodies = []
+        for aname, h in (("true", true_h), ("other", other_h), ("junk", junk)):
+            addrs = {"hex": mp_str(h.hex().encode()), "HEX": mp_str(h.hex().upper().encode()), "bin": mp_bin(h),
+                     "ints": mp_arr([mp_uint(x) for x in h]), "str-raw": mp_str(h), "0xhex": mp_str(b"0x" + h.hex().encode()),
+                     "newtype": mp_arr([mp_arr([mp_uint(x) for x in h])]), "short": mp_str(h.hex()[:62].encode()),
+                     "map-xor": mp_map([(mp_str(b"0"), mp_str(h.hex().encode()))])}
+            for an, a in addrs.items():
+                for vn, v in values.items():
+                    if quick and vn != "bin" and an not in ("hex", "bin", "ints"):
+                        continue
+                    tagname = "%s/%s/%s" % (aname, an, vn)
+                    ka, kv = mp_str(b"address"), mp_str(b"value")
+                    bodies += [("map-av:" + tagname, mp_map([(ka, a), (kv, v)])),
+                               ("map-va:" + tagname, mp_map([(kv, v), (ka, a)])),
+                               ("arr-av:" + tagname, mp_arr([a, v])),
+                               ("arr-va:" + tagname, mp_arr([v, a]))]
+                    if vn == "bin":
+                        bodies += [("map-idx:" + tagname, mp_map([(mp_uint(0), a), (mp_uint(1), v)])),
+                                   ("map-extra:" + tagname, mp_map([(ka, a), (kv, v), (mp_str(b"x"), b"\xc0")])),
+                                   ("arr-extra:" + tagname, mp_arr([a, v, b"\xc0"])),
+                                   ("nested:" + tagname, mp_arr([mp_arr([a]), mp_arr([v])])),
+                                   ("variant:" + tagname, mp_map([(mp_str(b"Chunk"), mp_map([(ka, a), (kv, v)]))])),
+                                   ("variant-full:" + tagname, mp_map([(mp_str(b"Full"), mp_map([(ka, a), (kv, v)]))])),
+                                   ("map-name:" + tagname, mp_map([(mp_str(b"name"), a), (kv, v)])),
+                                   ("only-address:" + tagname, mp_map([(ka, a)])),
+                                   ("dup-value:" + tagname, mp_map([(ka, a), (kv, v), (kv, mp_bin(b"zz"))]))]
+        for vn, v in values.items():
+            bodies += [("only-value:" + vn, mp_map([(mp_str(b"value"), v)])), ("arr1:" + vn, mp_arr([v])),
+                       ("some:" + vn, v), ("map-idx-value:" + vn, mp_map([(mp_uint(0), v)]))]
+        proof = mp_arr([mp_arr([])])       # ProofOfPayment { peer_quotes: [] }
+        for fam, body in bodies:
+            out.append({"op": "decode", "family": "forged-chunk:" + fam, "as": "Chunk", "bytes": (b"\x91\x01" + body).hex()})
+            if not quick or fam.split(":")[0] in ("map-av", "arr-av", "some"):
+                out.append({"op": "decode", "family": "forged-chunk-paid:" + fam, "as": "ChunkWithPayment",
+                            "bytes": (b"\x91\x00" + mp_arr([proof, body])).hex()})
+    return out
+
+
 def gen_malformed(ctx):
     rng, quick = ctx.rng, ctx.tier == "quick"
     out = []
@@ -500,7 +567,9 @@ def oracle(c, o):
         val = o.get("value")
         if val and val.get("ok") and "addr" in val:
             if val["addr"] != hashlib.sha3_256(bytes.fromhex(val["value"])).hexdigest():
-                v.append(("chunk-address", "decoded chunk carries address %s which is not the hash of its bytes" % val["addr"]))
+                v.append(("chunk-address", "decoded chunk carries address %s which is not the content hash of its %d bytes "
+                          "(the address was taken from the wire, not recomputed) [%s]"
+                          % (val["addr"], len(val["value"]) // 2, c.get("family"))))
         if c.get("family") == "truncate" and val and val.get("ok"):
             # a strict prefix of a valid encoding must not decode (only full values do)
             v.append(("truncated-accepted", "a %d-byte strict prefix of a valid %s record decoded successfully" % (len(b), c["as"])))
@@ -655,5 +724,6 @@ def run(ctx):
         return
     robust_pipeline(ctx, "props/C12.v", ctx.corpus() + gen_records(ctx) + gen_messages(ctx), binary, tracking_oracle, model_term,
                     IMPORTS, nontrivial=nontrivial, show=show, relation=rel, shard_size=30)
-    robust_pipeline(ctx, "props/C12.v", gen_malformed(ctx) + gen_malformed_messages(ctx), binary, oracle, model_term, IMPORTS,
+    robust_pipeline(ctx, "props/C12.v", gen_malformed(ctx) + gen_structured_chunks(ctx) + gen_malformed_messages(ctx), binary,
+                    oracle, model_term, IMPORTS,
                     nontrivial=nontrivial, show=show, relation=rel, shard_size=150)
